@@ -90,6 +90,17 @@ CLAIMED['C09'] = dict(
    note='Not decided (and said so): that listings return every item exactly once in order after arbitrary histories - that needs SQLite trigger / UPDATE semantics over histories, i.e. symbolic execution of SQL, a different family. Two genuine defects repaired (stale successor on move; end() dereference in the walkers).',
    ref='DESIGN.md 4 C09')
 
+CLAIMED['C10'] = dict(
+   technique='declaration analysis (field types of handle / table / context classes, statics), statement-site scan, symbolic path comparison of open / attach sites, transaction path analysis, version-constant cross-check',
+   text='Discharges the premises of the statelessness argument (observation = function of database content; content durable at statement / commit boundaries; load re-attaches what was written): N1 handles, impl and table classes hold only ids, shared pointers and table handles, contexts only directory / schema / connection, no mutable static; N2 no statement targets a temporary object; N3 create and load sides open / attach the same symbolic paths under the same aliases in the same order (unqualified table names present in both attached files resolve by that order); N4 every transaction is committed on every normal path and the guard has BEGIN / COMMIT / ROLLBACK (or the equivalent released-savepoint) shape; N5 each supported enumerator has a creator whose version constant is the triple the enumerator stands for; N6 create_or_load_database sets created exactly as documented with database_not_found as only handler.',
+   note='Trusted: SQLite / file-system durability. Not decided: equality of observations is inferred from the premises, not measured.',
+   ref='DESIGN.md 4 C10')
+CLAIMED['C11'] = dict(
+   technique='statement-site analysis with resolved bind roles for the 1.x crate operations, field model of the track path per schema range, trigger analysis of every 2.x DDL, value flow of add_track, reference-graph cleanup analysis',
+   text='Decides co-update clauses: W1 each 1.x forest operation writes every redundant encoding it affects with the right roles (parent-list row with origin / parent, hierarchy rows = ancestors of the parent looked up by crateIdChild = parent plus the parent, removal of the old rows on move, Crate.path of the crate and its subtree); W2 whoever writes Track.path also writes file name and extension / file type from the same value (create, update, setter; both generations, per schema range); W3 one codec class per blob column; W4 referential cleanup on delete; W5 origin fix-up triggers in every 2.x DDL; W6 the entity database uuid is read from Information.uuid.',
+   note='Not decided: acceptance by an independent reader after arbitrary histories (integrity_check, decoding every stored blob, chain acyclicity). Known findings: 1.x re-parent leaves Crate.path and the descendants\' hierarchy rows stale; 2.x set_relative_path leaves filename / fileType stale; the six cleanup findings shared with C08. A seeded change inside get_file_extension (first dot instead of last) is value-level and not detected.',
+   ref='DESIGN.md 4 C11')
+
 NOT_APPLICABLE = {
  'C19': 'numerical result of integer/floating arithmetic over all inputs (ceiling division, quantisation, minimality, monotonicity): no structural clause beyond the division guard, which C15-U6 covers; a sound decision needs an arithmetic solver or proof (different family)',
  'C20': 'floating-point numerical behaviour of beat-grid extrapolation (bracketing, tempo preservation, idempotence up to rounding); only the iterator arithmetic is shape-visible and is covered by C15-U3',
